@@ -13,6 +13,7 @@ From Irismod Require Genesis.Coinswap Genesis.CoinswapProofs.
 From Irismod Require Genesis.Token Genesis.TokenProofs.
 From Irismod Require Genesis.Nft Genesis.NftProofs.
 From Irismod Require Genesis.Random Genesis.RandomProofs.
+From Irismod Require Genesis.Farm Genesis.FarmProofs.
 
 (** ** record *)
 Module RecordC12.
@@ -209,3 +210,68 @@ Example random_nonvacuous :
   invb wit_tbl wit_s = true /\ invb wit_tbl (prep 9 wit_s) = true /\ export (prep 9 wit_s) <> export wit_s.
 Proof. repeat split; vm_compute; try reflexivity; discriminate. Qed.
 End RandomC12.
+
+(** ** farm.  The model carries three switches for the three repairs committed in the repository
+    ([fix_stake]: MsgStake rejects a zero amount; [fix_rps]: the genesis validation accepts a reward
+    per share truncated to zero; [fix_q]: InitGenesis enqueues a pool ending at the import height);
+    the tree under check has all three ([Farm.fixed_*] = true).  [h] = the height the new chain
+    starts with (= height of the old chain + 1). *)
+Module FarmC12.
+Import Genesis.Farm Genesis.FarmProofs.
+
+(** the code as it was: (1) with zero stakes possible a farmer with nothing locked makes the export
+    invalid; (2) even without them, a reward per share truncated to zero does *)
+Theorem farm_export_validates_refuted :
+  (exists h s, invb false h s = true /\ validate false (export s) = false)
+  /\ (exists h s, invb true h s = true /\ validate false (export s) = false).
+Proof. exact farm_export_validates_refuted_lemma. Qed.
+Print Assumptions farm_export_validates_refuted.
+
+(** the code as it was: a running pool ending at the import height is missing from the new queue *)
+Theorem farm_queue_rebuilt_refuted :
+  exists h s s', invb true h s = true /\ import true false h (export s) = Some s'
+                 /\ queue s' <> queue_at h (pools s').
+Proof. exact farm_queue_rebuilt_refuted_lemma. Qed.
+Print Assumptions farm_queue_rebuilt_refuted.
+
+(** the repaired code *)
+Theorem farm_export_validates :
+  forall (h : Z) (s : state), invb true h s = true -> validate true (export s) = true.
+Proof. exact farm_export_validates_lemma. Qed.
+Print Assumptions farm_export_validates.
+
+(** as stated it FAILS (also after the repairs): a farmer whose pool is not in the genesis passes
+    ValidateGenesis and makes InitGenesis panic *)
+Theorem farm_import_total_refuted :
+  exists h g, validate true g = true /\ import true true h g = None.
+Proof. exact farm_import_total_refuted_lemma. Qed.
+Print Assumptions farm_import_total_refuted.
+
+Theorem farm_import_total_partial :
+  forall (h : Z) (g : genesis),
+    validate true g = true ->
+    (forall f, In f (g_farmers g) -> In (f_pool f) (map (fun pr => p_id (fst pr)) (g_pools g))) ->
+    fee_valid (g_prm g) = true ->
+    import true true h g <> None.
+Proof. exact farm_import_total_partial_lemma. Qed.
+Print Assumptions farm_import_total_partial.
+
+Theorem farm_export_fixpoint :
+  forall (h : Z) (s : state),
+    invb true h s = true -> exists s', import true true h (export s) = Some s' /\ export s' = export s.
+Proof. exact farm_export_fixpoint_lemma. Qed.
+Print Assumptions farm_export_fixpoint.
+
+(** pools with their rules, farmers, parameters; and the queue of the new chain holds exactly the
+    pools still to be closed *)
+Theorem farm_queries_preserved :
+  forall (h : Z) (s : state),
+    invb true h s = true ->
+    exists s', import true true h (export s) = Some s' /\ queries s' = queries s
+               /\ queue s' = queue_at h (pools s').
+Proof. exact farm_queries_preserved_lemma. Qed.
+Print Assumptions farm_queries_preserved.
+
+Example farm_nonvacuous : invb true 4 wit_s = true /\ queue_at 4 (pools wit_s) = [((11, 1), tt)].
+Proof. split; vm_compute; reflexivity. Qed.
+End FarmC12.
